@@ -17,6 +17,10 @@ pub struct Node {
     pub reads: Vec<ReadOp>,
     pub queries: Vec<QueryOp>,
     pub writes: Vec<WriteOp>,
+    /// reads of the contract's own storage issued after the writes of this call, through the same
+    /// storage view (what the contract itself reads back)
+    #[serde(default)]
+    pub post_reads: Vec<ReadOp>,
     /// fault flag: the body returns Err after its writes
     pub fail: bool,
     pub attrs: Vec<(String, String)>,
@@ -69,7 +73,16 @@ pub enum QueryOp {
     AllBalances { who: Target },
     Supply { denom: u32 },
     Raw { contract: Target, key: KeySpec },
-    Smart { contract: Target, keys: Vec<Bytes> },
+    /// smart query: values of `keys`, optionally a full scan of the callee's storage, optionally
+    /// forwarded along a chain of further contracts (nested queries)
+    Smart {
+        contract: Target,
+        keys: Vec<Bytes>,
+        #[serde(default)]
+        scan: bool,
+        #[serde(default)]
+        chain: Vec<Target>,
+    },
     ContractInfo { contract: Target },
     CodeInfo { code: u32 },
     Custom { tag: String },
@@ -165,7 +178,21 @@ pub enum Op {
     HSend { sender: u32, to: Target, coins: Vec<CoinSpec> },
     /// update_block (set = false) or set_block (set = true): advance height and time
     /// (`abs_h`: jump to an absolute height instead, e.g. 0 or u64::MAX; time never goes back)
-    Block { set: bool, dh: u64, dt: u64, #[serde(default)] abs_h: Option<u64> },
+    /// `dn`: additional nanoseconds; `chain`: change the chain id; `zero_time`: jump to time 0
+    /// (only executed on chains without validators: staking needs non-decreasing time)
+    Block {
+        set: bool,
+        dh: u64,
+        dt: u64,
+        #[serde(default)]
+        abs_h: Option<u64>,
+        #[serde(default)]
+        dn: u32,
+        #[serde(default)]
+        chain: Option<u8>,
+        #[serde(default)]
+        zero_time: bool,
+    },
     /// write through App::contract_storage_mut
     External { target: Target, k: Bytes, v: Option<Bytes> },
     /// App-level query battery (purity, repeatability, agreement with the model)
